@@ -829,6 +829,8 @@ class ZonalStatistics(AccessorBase):
 
         # set null values to nodata value
         xx = xx.where(xx.notnull(), xx.nodata)
+        # compare in the raster's own precision: float32(1e20) is not the double 1e20
+        nodata = xx.dtype.type(xx.nodata) if xx.dtype.kind == "f" else xx.nodata
         attrs = xx.attrs
         num_zones = len(zone_ids)
         dims = (xx.dims[0], dim_name, "stat")
@@ -853,7 +855,7 @@ class ZonalStatistics(AccessorBase):
                 xx.data,
                 zones.data,
                 num_zones,
-                xx.nodata,
+                nodata,
                 zones.nodata,
                 drop_axis=[1, 2],
                 new_axis=[1, 2],
@@ -866,7 +868,7 @@ class ZonalStatistics(AccessorBase):
                 xx.data,
                 zones.data,
                 num_zones,
-                xx.nodata,
+                nodata,
                 zones.nodata,
                 out_dtype=dtype,
             )
